@@ -4,6 +4,7 @@ ID=$1; id=$(echo $ID | tr A-Z a-z); A=/tmp/a/$ID
 git -C /verif diff --quiet HEAD -- props/$id.py || { echo "props/$id.py has local changes in /verif: merge by hand"; exit 2; }
 base=$(git -C /verif log -1 --format=%h -- props/$id.py)
 cp $A/verif/props/$id.py /verif/props/$id.py
+for f in $A/verif/props/${id}_*.py; do [ -f "$f" ] && cp "$f" /verif/props/; done      # companion modules (props/<id>_*.py)
 [ -f $A/verif/vlib/gen_$id.py ] && cp $A/verif/vlib/gen_$id.py /verif/vlib/
-mkdir -p /verif/audit/$ID; cp $A/AUDIT.md /verif/audit/$ID/ 2>/dev/null; cp $A/own*.diff /verif/audit/$ID/ 2>/dev/null
+mkdir -p /verif/audit/$ID; cp $A/AUDIT.md $A/AUDIT2.md /verif/audit/$ID/ 2>/dev/null; cp $A/own*.diff /verif/audit/$ID/ 2>/dev/null
 ls /verif/audit/$ID
